@@ -52,7 +52,7 @@ RULE = ('templates: random trees over atoms (5 distinct waveforms), sequences, r
         'after update_volatile_parameters vs. a fresh compilation), families for_loop (volatile counts inside a '
         'ForLoopPT: the model sees the unrolled sequence of index bindings; index called like a volatile parameter), '
         'meas_merge (measurements on a repetition and on its count-1 child), too_long (tables longer than max_seq_len '
-        'in SINGLE / ADVANCED mode), pipeline cleanup(actions=(merge_single_child,)).  Thorough adds the full pipeline grids of the '
+        'in SINGLE / ADVANCED mode), pipeline cleanup(actions=(merge_single_child,)).  Round 5: family deep_merge (single-child chains of three / four nested repetitions with volatile counts, so that merged counts are merged again: inner parameters updated first, one level fixed / not volatile / mapped / the same parameter / parameters named like the merge operands; x cleanup, flatten, Tabor).  Thorough adds the full pipeline grids of the '
         'families and the exhaustive enumeration of all templates with <= 3 composite nodes (4 composite nodes over a '
         'further reduced alphabet) x all volatile subsets.  Non-trivial = some repetition count is volatile and some '
         'update changes its value.')
@@ -696,7 +696,53 @@ def too_long_cases(rng, tier):
     return cases
 
 
+def fam_deep_merge():
+    """round 5 (seed C15-8): single-child chains of THREE or FOUR nested repetitions whose counts are volatile, so that
+    Loop._merge_single_child applies VolatileRepetitionCount.operation to a count that is itself an operation result
+    (a JointScope nested inside a JointScope, on the child side after cleanup, on either side after
+    flatten_and_balance); every parameter is updated on its own, the INNER ones first; one level fixed / not volatile /
+    reached through a mapping / all levels the same parameter / parameters called like the operand names of the
+    merge; the chain alone, as one of several tables, with a sequence as its body"""
+    n, m, k, x = V_('n'), V_('m'), V_('k'), V_('x')
+    P, C = V_(JPN), V_(JCN)
+    ch3 = lambda a, b, c, body: R_(a, R_(b, R_(c, body)))
+    A01 = S_(A_(0), A_(1))
+    inner_first = [{'k': 3}, {'m': 2}, {'n': 1}, {'k': 1, 'm': 3}]
+    shapes = [
+        (ch3(n, m, k, A_(0)), {'n': 2, 'm': 1, 'k': 2}, ['n', 'm', 'k'], inner_first),
+        (ch3(n, m, k, A01), {'n': 1, 'm': 1, 'k': 1}, ['n', 'm', 'k'], [{'m': 2}, {'k': 2}, {'n': 2}, {'m': 1}]),
+        (ch3(n, m, k, A_(2)), {'n': 2, 'm': 2, 'k': 2}, ['n', 'm', 'k'], [{'k': 1}, {'m': 1}, {'k': 3}, {'m': 0}, {'m': 1}]),
+        (R_(n, ch3(m, k, x, A_(0))), {'n': 1, 'm': 2, 'k': 1, 'x': 2}, ['n', 'm', 'k', 'x'],
+         [{'x': 1}, {'k': 2}, {'m': 1}, {'x': 3}, {'n': 2}]),
+        (R_(n, ch3(m, k, x, A01)), {'n': 2, 'm': 1, 'k': 1, 'x': 1}, ['m', 'k', 'x'], [{'x': 2}, {'k': 2}, {'m': 2}]),
+        (ch3(n, C_(2), k, A_(0)), {'n': 2, 'k': 1}, ['n', 'k'], [{'k': 3}, {'n': 1}, {'k': 2}]),
+        (ch3(C_(2), m, k, A_(1)), {'m': 2, 'k': 1}, ['m', 'k'], [{'k': 3}, {'m': 1}]),
+        (ch3(n, m, C_(2), A_(1)), {'n': 1, 'm': 2}, ['n', 'm'], [{'m': 3}, {'n': 2}, {'m': 1}]),
+        (ch3(n, m, k, A_(0)), {'n': 2, 'm': 1, 'k': 2}, ['n', 'k'], [{'k': 3}, {'n': 1}]),
+        (ch3(n, m, k, A_(0)), {'n': 2, 'm': 1, 'k': 2}, ['m', 'k'], [{'k': 3}, {'m': 2}, {'k': 1}]),
+        (ch3(n, m, k, A_(3)), {'n': 2, 'm': 2, 'k': 2}, ['k'], [{'k': 1}, {'k': 3}]),
+        (ch3(n, m, k, A_(3)), {'n': 2, 'm': 2, 'k': 2}, ['m'], [{'m': 1}, {'m': 3}]),
+        (ch3(n, n, n, A_(0)), {'n': 1}, ['n'], [{'n': 2}, {'n': 1}, {'n': 0}, {'n': 2}]),
+        (ch3(n, add_(n, C_(1)), mul_(C_(2), n), A_(4)), {'n': 1}, ['n'], [{'n': 2}, {'n': 1}]),
+        (R_(n, M_([('m', add_(k, C_(1)))], R_(m, R_(k, A_(0))))), {'n': 1, 'k': 1}, ['n', 'k'], [{'k': 2}, {'n': 2}, {'k': 0}]),
+        (R_(n, M_([('m', add_(k, C_(1)))], R_(m, R_(k, A01)), True)), {'n': 2, 'k': 1}, ['n', 'k'], [{'k': 2}, {'n': 1}]),
+        (M_([('k', mul_(C_(2), x))], ch3(n, m, k, A_(1)), True), {'n': 1, 'm': 1, 'x': 1}, ['n', 'm', 'x'],
+         [{'x': 2}, {'m': 2}, {'n': 2}]),
+        (ch3(P, C, n, A_(0)), {JPN: 1, JCN: 2, 'n': 1}, [JPN, JCN, 'n'], [{'n': 2}, {JCN: 1}, {JPN: 2}, {'n': 3}]),
+        (ch3(n, P, C, A_(0)), {JPN: 1, JCN: 2, 'n': 1}, [JPN, JCN, 'n'], [{JCN: 1}, {JPN: 3}, {'n': 2}]),
+        (ch3(n, m, P, A01), {JPN: 2, 'n': 1, 'm': 1}, ['n', 'm', JPN], [{JPN: 1}, {'m': 2}, {JPN: 3}]),
+        (S_(ch3(n, m, k, A01), R_(C_(2), S_(A_(2), A_(3)))), {'n': 1, 'm': 2, 'k': 1}, ['n', 'm', 'k'],
+         [{'k': 2}, {'m': 1}, {'n': 2}]),
+        (S_(R_(C_(2), S_(A_(2), A_(3))), ch3(n, m, k, S_(A_(0), R_(x, A_(1)))), A_(4)), {'n': 1, 'm': 1, 'k': 2, 'x': 2},
+         ['n', 'm', 'k', 'x'], [{'k': 1}, {'m': 2}, {'x': 1}, {'n': 2}]),
+        (R_(C_(2), S_(ch3(n, m, k, A_(0)), A_(1))), {'n': 1, 'm': 1, 'k': 2}, ['n', 'm', 'k'], [{'m': 2}, {'k': 1}, {'n': 2}]),
+        (ch3(n, m, k, R_(C_(2), A01)), {'n': 1, 'm': 2, 'k': 1}, ['n', 'm', 'k'], [{'k': 2}, {'m': 1}, {'k': 1}]),
+    ]
+    return [(pt, vals, V, ups) for pt, vals, V, ups in shapes]
+
+
 FAMILIES4 = [('for_loop', fam_for_loop), ('meas_merge', fam_meas_merge)]
+FAMILIES5 = [('deep_merge', fam_deep_merge)]
 FAMILIES = [('zero_mid', fam_zero_mid), ('vol_neighbour_one', fam_vol_neighbour_one), ('named_maps', fam_named_maps),
             ('shared_before', fam_shared_before), ('same_param_twice', fam_same_param_twice),
             ('internal_names', fam_internal_names), ('vol_fixed_twin', fam_vol_fixed_twin)]
@@ -724,12 +770,17 @@ def family_cases(rng, tier, families=None):
                     pls = (pls if tier == 'thorough' else ['cleanup', TREE_PLS[idx % 4]]) + ['cleanupm']
                 if fname == 'vol_fixed_twin' and tier != 'thorough':
                     pls = ['flat1', 'flat2', 'cleanup'] if idx >= 21 else [TREE_PLS[idx % 4]]
+                if fname == 'deep_merge':
+                    pls = TREE_PLS + ['flat0', 'flat3', 'cleanupm'] if tier == 'thorough' else \
+                        ['cleanup', 'flat1' if idx % 2 else 'flat2'] + (['cleanupm'] if idx % 3 == 0 else [])
                 for pl in dict.fromkeys(pls):
                     variants.append({'kind': 'tree', 'pl': pl})
                 tg = [(mn, mx, cl, md) for mn in (1, 2, 3) for mx in (4, 8) for cl in (True, False) for md in (None, 'single', 'advanced')]
                 pick = tg if tier == 'thorough' else [tg[(idx * 7 + 3) % len(tg)]]
                 if fname == 'vol_fixed_twin' and tier != 'thorough':
                     pick = [(1, 8, False, None), (1, 8, True, 'advanced'), (2, 6, idx % 2 == 0, None)]
+                if fname == 'deep_merge' and tier != 'thorough':
+                    pick = [(1, 8, True, None), (1 + idx % 2, 8, idx % 2 == 0, 'advanced' if idx % 2 else 'single')]
                 for mn, mx, cl, md in pick:
                     variants.append({'kind': 'tabor', 'cl': cl, 'mode': md, 'mn': mn, 'mx': mx})
             for v in variants:
@@ -1023,6 +1074,7 @@ def gen_cases(rng, tier, ctx):
     cases.extend(family_cases(rng, tier, FAMILIES4))
     cases.extend(too_long_cases(rng, tier))
     cases.extend(float_cases(rng, tier))
+    cases.extend(family_cases(rng, tier, FAMILIES5))
     if tier == 'thorough':
         seen = set()
         for p in small_templates():
@@ -1822,8 +1874,156 @@ def histogram_keys(case, obs):
     return keys
 
 
-def classify(case, obs):
-    """id of the known finding a failing case belongs to (precise predicates on the input / recorded call sites)"""
+def ref_dropped_returns(p, s0, s1, delta):
+    """a repetition whose volatile count is <= 0 under the INITIAL values s0 (so it is dropped at instantiation) has a
+    positive count under the values s1: only then can the finding zero-count-dropped explain a difference between the
+    updated program and a fresh instantiation"""
+    k = p[0]
+    if k == 'for':
+        return ref_dropped_returns(desugar1(p), s0, s1, delta)
+    if k == 'atom':
+        return False
+    if k == 'seq':
+        return any(ref_dropped_returns(q, s0, s1, delta) for q in p[1])
+    if k == 'rep':
+        v0 = e_eval(p[1], s0)
+        if v0 <= 0:
+            return any(delta(x) for x in e_vars(p[1])) and e_eval(p[1], s1) > 0 and bool(ref_inst(p[3], s1, delta))
+        return ref_dropped_returns(p[3], s0, s1, delta)
+    mp = dict((n, e) for n, e in p[1])
+    m_ = lambda s: (lambda x: e_eval(mp[x], s) if x in mp else s(x))
+    return ref_dropped_returns(p[2], m_(s0), m_(s1), lambda x: any(delta(y) for y in e_vars(mp[x])) if x in mp else delta(x))
+
+
+def _dropped_comes_back(case):
+    V = set(case['V'])
+    cur = dict(case['vals'])
+    s0 = env_fn(dict(cur))
+    try:
+        for us in case['ups']:
+            for k2, v in us.items():
+                if k2 in cur:
+                    cur[k2] = v
+            if ref_dropped_returns(case['pt'], s0, env_fn(dict(cur)), lambda x: x in V):
+                return True
+    except KeyError:
+        pass
+    return False
+
+
+_MODEL_AGREES = {}
+
+
+def _model_agrees(case, obs):
+    """round 5 (audit of the known-finding predicates): the Coq model reproduces every known finding, so a failing case
+    is filed under a known finding only if the MODEL computes exactly the implementation's observation on it
+    (check_corr, one coqc call per such case, memoised).  A change of the code that shows only inside the input class
+    of a finding is then a violation instead of disappearing under the finding."""
+    key = vlib.canonical_hash([case, obs])
+    if key not in _MODEL_AGREES:
+        wd = os.path.join(vlib.BUILD, 'c15_classify_%d' % os.getpid())
+        try:
+            res = vlib.run_coq_cases(wd, CORR_IMPORTS, [CHECK_CORR], [to_coq(case, obs)], case_type='case', shard=SHARD,
+                                     prelude='')
+            _MODEL_AGREES[key] = not res[CHECK_CORR]
+        except Exception:
+            _MODEL_AGREES[key] = False
+        finally:
+            vlib.rmtree(wd)
+    return _MODEL_AGREES[key]
+
+
+def _py_round_clamp(v):
+    return max(0, round(v))          # round() of a Fraction: nearest integer, ties to even
+
+
+def _noninteger_as_predicted(case, obs):
+    """the finding noninteger-update-rounds predicts every observation of a frac / float case exactly: after an update
+    the count is the value of the expression rounded to the nearest integer (ties to even), clamped at 0; a fresh
+    instantiation raises exactly where the value is farther than the tolerance from an integer and gives the same
+    count elsewhere.  Independent re-evaluation (Fractions / plain Python floats)."""
+    import fractions
+    try:
+        if case['kind'] == 'frac':
+            cur = {k: vlib.frac_parse(str(v)) for k, v in case['vals'].items()}
+            for us, a, f in zip(case['ups'], obs['after'], obs['fresh']):
+                for k2, v in us.items():
+                    cur[k2] = vlib.frac_parse(v)
+                val = fractions.Fraction(e_eval(case['expr'], env_fn(cur)))
+                want = _py_round_clamp(val)
+                if a != want or f != ('nonint' if val.denominator != 1 else ('none' if want == 0 else want)):
+                    return False
+            return len(obs['after']) == len(case['ups'])
+        exact = case['vt'] == 'tt'
+        fe = FLOAT_TEMPLATES[case['tmpl']][2]
+        cur = dict(case['vals'])
+        cls = float_classes(case)
+        if len(obs['after']) != len(case['ups']) or not isinstance(obs['before'], int):
+            return False
+        for i, (us, a, f) in enumerate(zip(case['ups'], obs['after'], obs['fresh'])):
+            cur.update({k: v for k, v in us.items() if k in cur})
+            val = fractions.Fraction(fe_eval_py(fe, cur, exact))
+            want = _py_round_clamp(val)
+            if a[0] != want:
+                return False
+            k = cls[i + 1]
+            if k == 'outside_tolerance':
+                if f != 'nonint':
+                    return False
+            elif k != 'boundary' and f != ('none' if want == 0 else want):
+                return False
+        return True
+    except (KeyError, ZeroDivisionError, TypeError, ValueError):
+        return False
+
+
+def classify(case, obs, confirm=True):
+    """id of the known finding a failing case belongs to (precise predicates on the input / recorded call sites).
+    Round 5: every predicate is narrowed by a prediction of what the implementation shows UNDER the finding
+    (confirm=False skips the model evaluation; used while shrinking)"""
+    fid = _classify_input(case, obs)
+    if fid is None or 'crash' in obs or 'hang' in obs:
+        return None if ('crash' in obs or 'hang' in obs) else fid
+    if fid == 'C15-noninteger-update-rounds':
+        return fid if _noninteger_as_predicted(case, obs) else None
+    if fid == 'C15-volatile-update-stale-duration':
+        return fid if _stale_duration_as_predicted(case, obs) else None
+    if confirm and case['kind'] in ('tree', 'tabor', 'compat'):
+        return fid if _model_agrees(case, obs) else None
+    return fid
+
+
+def _stale_duration_as_predicted(case, obs):
+    """stale-duration predicts: the root (count 1) answers with the body duration it cached at its FIRST read for ever
+    after (= the right initial duration when it was read before the updates); the duration of every fresh
+    instantiation is the reference duration of the template"""
+    try:
+        V0 = set(case['V'])
+        cur = dict(case['vals'])
+        ref = [ref_size(ref_inst(case['pt'], env_fn(dict(cur)), lambda x: x in V0))[0] * 192]
+        for us in case['ups']:
+            for k2, v in us.items():
+                if k2 in cur:
+                    cur[k2] = v
+            ref.append(ref_size(ref_inst(case['pt'], env_fn(dict(cur)), lambda x: x in V0))[0] * 192)
+        steps = obs['steps']
+        num = lambda x: vlib.frac_parse(str(x))
+        # the root answers with ONE value for ever (cached at its first read; below it, body durations cached while
+        # the program was built may be mixed in, so the value itself is only predicted when it was read before)
+        first = ref[0] if obs.get('pre') else (num(steps[0]['dur']) if steps else None)
+        if obs.get('pre') and num(obs['pre'][0]) != ref[0]:
+            return False
+        for i, st in enumerate(steps):
+            if num(st['dur']) != first:
+                return False
+            if st['fresh'] is not None and num(st['fresh']) != ref[i + 1]:
+                return False
+        return True
+    except (KeyError, ValueError, TypeError, IndexError):
+        return False
+
+
+def _classify_input(case, obs):
     if case['kind'] == 'dur':
         # the reference duration of the template changes at some update (then a cached body duration above the
         # volatile count is out of date)
@@ -1847,7 +2047,7 @@ def classify(case, obs):
         # into a concatenated waveform without a VolatileModificationWarning is a violation again, no classification)
         V = set(case['V'])
         try:
-            if ref_dropped_volatile(case['pt'], env_fn(dict(case['vals'])), lambda x: x in V):
+            if ref_dropped_volatile(case['pt'], env_fn(dict(case['vals'])), lambda x: x in V) and _dropped_comes_back(case):
                 return 'C15-zero-count-dropped'
         except KeyError:
             pass
@@ -1872,7 +2072,7 @@ def classify(case, obs):
     V = set(case['V'])
     cur = dict(case['vals'])
     try:
-        if ref_dropped_volatile(case['pt'], env_fn(cur), lambda x: x in V):
+        if ref_dropped_volatile(case['pt'], env_fn(cur), lambda x: x in V) and _dropped_comes_back(case):
             return 'C15-zero-count-dropped'
     except KeyError:
         pass
@@ -1960,7 +2160,7 @@ def shrink(case, obs, ctx):
     if case.get('kind') not in ('tree', 'tabor', 'compat'):
         return case, obs
     wd = os.path.join(ctx['workdir'], 'shrink')
-    want = classify(case, obs)
+    want = classify(case, obs, confirm=False)
     for _ in range(8):
         cands = _one_step_reductions(case)[:60]
         if not cands:
@@ -1972,7 +2172,7 @@ def shrink(case, obs, ctx):
         except Exception:
             break
         bad = set(res[CHECK_SPEC]) | {i for i, (c, o) in enumerate(zip(cands, cobs)) if py_spec(c, o)}
-        pick = [i for i in sorted(bad) if 'crash' not in cobs[i] and 'hang' not in cobs[i] and classify(cands[i], cobs[i]) == want]
+        pick = [i for i in sorted(bad) if 'crash' not in cobs[i] and 'hang' not in cobs[i] and classify(cands[i], cobs[i], confirm=False) == want]
         if not pick:
             break
         case, obs = cands[pick[0]], cobs[pick[0]]
@@ -2049,41 +2249,35 @@ def search_failing(ctx, broken):
 MANIFEST = {
     'level_text': 'Proof (Coq, unbounded in template shape, mappings, volatile set and update history) for the model of '
                   'instantiation / update / merge / cleanup on program trees: a count is marked volatile iff it depends '
-                  'on a volatile parameter through the enclosing mappings, and updating equals re-instantiating; '
-                  'flatten_and_balance and prepare_program_for_advanced_sequence_mode commute with updates when no '
-                  'VolatileModificationWarning is raised and the compilation of the updated program takes the same '
-                  'decisions.  TaborProgram.update_volatile_parameters: proved in full at the level of table cells '
-                  'under the guard that positions sharing a cell agree on the new value (refuted without it: known '
-                  'finding shared table); the parser step (C15_tabor_recompile) and the end-to-end statement '
-                  '(C15_tabor_compile_commutes; SINGLE mode unconditionally) are proved.  make_compatible is modelled '
-                  '(code as it is and with the repair) and proved to commute with updates under its guard.  '
-                  'New in round 4: (1) counts evaluated in floating point (ModelF.v: every operation = exact operation + '
-                  'round-to-nearest-even to 53 bits on exact rationals, is_integer / checked_int_cast with the exact '
-                  'double 1e-6): for EVERY value a fresh instantiation accepts the update path yields the same count '
-                  '(C15_float_update_is_fresh), the instantiation assertion cannot fail, no warning => accepted, the '
-                  'two tolerance tests differ only on the boundary, truncation instead of rounding is refuted by '
-                  '0.3/0.1, and the integer model is the restriction of the float model below 2^53 '
-                  '(C15_float_round53_integers, C15_float_integer_restriction); error analysis: one rounding has '
-                  'relative error <= 2^-53 (C15_float_round53_error) and, for the class of seed C15-5 in general, '
-                  'fl(fl(K*Y)/fl(Y)) is read as K by update AND instantiation without warning for every K < 2^20, '
-                  'Y > 0 (C15_float_quotient_count); truncation is off by one below every integer '
-                  '(C15_float_truncation_off_by_one).  (2) Loop.split_one_child: a volatile '
-                  'entry is split only if every splittable entry is volatile (C15_split_prefers_fixed); when the fixed '
-                  'repeated entries can absorb the needed splits _check_partial_unroll adds no warning '
-                  '(C15_partial_unroll_keeps_volatile; example and counter-example of seed C15-6).',
+                  'on a volatile parameter through the enclosing mappings (C15_marked: model = scope-free specification), '
+                  'updating equals re-instantiating and the updated tree is the tree the specification describes for the '
+                  'new values (C15_update_meets_spec; guard: no count <= 0, refuted without: known finding), and after '
+                  'cleanup every played waveform lies under a changeable count iff the specification says so '
+                  '(C15_cleanup_marks, C15_cleanup_update_marks); merged counts of single-child chains of any length '
+                  '(C15_merge_chain_count).  Conditional results: flatten_and_balance, '
+                  'prepare_program_for_advanced_sequence_mode, the Tabor compilation end to end and make_compatible '
+                  'commute with ONE update when no VolatileModificationWarning is raised and the second run takes the '
+                  'same decisions (and shares the same sequencer tables) - these are hypotheses about the second run; '
+                  'input-level conditions are proved for SINGLE mode (unconditional), skip-only compilations, tables that '
+                  'are long enough, and fixed capacity in the splitting loop.  TaborProgram.update_volatile_parameters is '
+                  'proved at the level of table cells (new values written, nothing else changes, exactly the changed '
+                  'entries reported) under the guard that positions sharing a cell agree on the new value (refuted '
+                  'without it: known finding shared table).  Counts evaluated in binary64 (ModelF.v): for every value a '
+                  'fresh instantiation accepts the update path yields the same count; error analysis for quotients / '
+                  'products K < 2^20.  NOT proved, tested only (see notes, clause map): that the volatile marks / '
+                  'recorded positions of compiled tables are exactly the dependent counts, that the tables play the '
+                  'denotation of the template, sequences of updates on Tabor programs, ForLoopPT.',
     'level_note': 'Trusted: Coq kernel, sympy (expression evaluation / structural equality / printed operation order), '
                   'IEEE-754 arithmetic of CPython and numpy, harness observation of Loop trees and Tabor tables.  The '
-                  'decision lists of prepare/tabor_compile/make_compatible are ghost outputs of the model; the '
-                  'commutation theorems are conditional on equal decision lists; sufficient conditions proved: SINGLE '
-                  'mode (unconditional), only DSkip decisions, all tables already long enough; new: fixed capacity '
-                  'suffices => the splitting loop keeps volatility.  The equal-sharing hypothesis of the parser has no '
-                  'input-level condition yet.  Known findings: zero count dropped, merged negative product, shared '
-                  'volatile table, non-integer update rounds (now also: float values farther than 1e-6 from an '
-                  'integer), stale cached durations after an update (Python-side oracle only).  Fixed in round 4 '
-                  '(/repo 57d5a3e, landed by the C06 owner with the patch prepared here): make_compatible baked a '
-                  'volatile child without warning; the model switch REPAIRED is true, the C15_make_compatible_repaired_* '
-                  'theorems are the statements about the code as it is now.  ForLoopPT is '
-                  'covered by unrolling on the model side (not a model constructor).',
+                  'decision lists of prepare / tabor_compile / make_compatible are ghost outputs of the model.  '
+                  'check_spec uses Spec.v only (plus eval / vars / lookup / mem of Model.v: expression arithmetic).  '
+                  'guard_C15_zero_count is wider than the finding it is named after (it also excludes fixed counts <= 0 '
+                  'and updates to 0).  Known findings: zero count dropped, merged negative product, shared volatile '
+                  'table, non-integer update rounds, stale cached durations after an update (Python-side oracle only); a '
+                  'failing case is filed under a known finding only if the model (tree / Tabor / make_compatible cases) '
+                  'or an exact prediction (non-integer, duration cases) reproduces the observation - anything else '
+                  'inside the input class of a finding is a violation.  Fixed in /repo: 1ee1549, 25f27a3, 86f493f, '
+                  'db69ac0 (Tabor), 57d5a3e (make_compatible).',
     'technique': 'Coq proof over a hand-written model + exact correspondence check against qupulse',
     'design_ref': 'DESIGN.md §5 C15',
 }
